@@ -408,7 +408,7 @@ def worker(ctx):
                         ctx.count('env.exhaustive')
                         ctx.case(key=src, nontrivial=bool(charge or radical or any(o > 1 or s != 'C' for o, s in env)),
                                  sample={'env': src, 'H': m._atoms[1].implicit_hydrogens} if rng.random() < .0002 else None)
-                        check_centre(ctx, m, src)
+                        check_centre(ctx, m, src, rd_centre=csym in CENTRES)    # RDKit's hydrogen model is consulted for main-group centres only
         if ctx.out_of_time():
             ctx.note('time budget reached in exhaustive part at %s' % csym)
             break
